@@ -51,7 +51,8 @@ META = {
                    'FALSE-witness theorem: sqlite file "/:memory:".'),
     'rule': ('cases = generic component tuples (class, user, password, host, port, db), sqlite file names, raw URI '
              'strings (generated, and single-character mutations of built URIs), port texts, extra-parameter dicts (inline and keyword) on built '
-             'URIs through a private ConnectionURIOpener, groups of sqlite files whose names differ only by quoting / by a tail that spells a '
+             'URIs through a private ConnectionURIOpener, absolute sqlite names not in normal form (/./, //, .. also behind a symlinked directory) '
+             'given to the real constructor and opened as real files (marker written with the stdlib sqlite3 module under the same name), groups of sqlite files whose names differ only by quoting / by a tail that spells a '
              'query or fragment, opened with and without parameters through the real connectionForURI in shuffled orders with repeats; distinct = distinct tuple / '
              'string; non-trivial = contains a character outside the unreserved set or a port'),
     'trusted': ['model of CPython 3.12.1 urllib.parse.quote / unquote / urlsplit / urlparse / parse_qsl and of '
@@ -496,40 +497,78 @@ FILE_NAMES = ['plain.db', 'with space.db', 'pct%41.db', '100%.db', 'q?x=1.db', '
               'back\\slash.db', '~tilde.db', '[br].db', '@at.db', 'a:b.db', '%2F.db', ' lead.db', 'trail .db', '%', 'x%zz']
 
 
-def same_file_oracle(ctx, path, label):
-    """open `path`, take the reported URI, open that through connectionForURI: same file?"""
+DIR_SPELLINGS = ['d0', 'real', 'real/.', './real', 'real//', '/real', 'real/sub dir/..', 'link/..', 'link', 'link/.', 'real/../real',
+                 'link/../sub dir', 'real/sub dir/../../real', '.', 'real/./sub dir//', 'real/sub dir', './/./real/./', 'link//..//']
+
+
+def scratch_layout(d):
+    """<d>/real/sub dir/, <d>/link -> <d>/real/sub dir (so <d>/link/.. is <d>/real, not <d>), <d>/d0"""
+    os.makedirs(os.path.join(d, 'real', 'sub dir'), exist_ok=True)
+    os.makedirs(os.path.join(d, 'd0'), exist_ok=True)
+    if not os.path.lexists(os.path.join(d, 'link')):
+        os.symlink(os.path.join(d, 'real', 'sub dir'), os.path.join(d, 'link'))
+
+
+def same_file_oracle(ctx, root, rel):
+    """the file the operating system finds under the name <root>/<rel> gets a marker through the stdlib sqlite3 module;
+    a SQLiteConnection made for that name must keep the name and read the marker, its URI must parse back to the name,
+    and the connection opened from the URI (connectionForURI, twice) must have the name and read the marker too"""
+    import sqlite3
     E = env()
     dbc = E['dbconnection']
+    path = root + '/' + rel
     c1 = c2 = None
     uri = None
+    case = {'sqlite_file_label': rel}
     try:
+        raw = sqlite3.connect(path)
+        raw.execute('CREATE TABLE c18_marker (v TEXT)')
+        raw.execute("INSERT INTO c18_marker VALUES ('written-by-sqlite3')")
+        raw.commit()
+        raw.close()
+
+        def marker(c):
+            try:
+                return [tuple(r) for r in c.queryAll('SELECT v FROM c18_marker')]
+            except Exception as e:
+                return '%s: %s' % (exc(e), e)
+        problem = None
         c1 = E['SQLiteConnection'](path)
         uri = c1.uri()
-        c1.query('CREATE TABLE c18_probe (x TEXT)')
-        c1.query("INSERT INTO c18_probe VALUES ('through-the-original')")
-        c2 = dbc.connectionForURI(uri)
-        again = dbc.connectionForURI(uri)
-        rows = None
-        problem = None
-        if again is not c2:
-            problem = 'connectionForURI returned two different connections for the same URI'
-        elif c2.filename != path:
-            problem = 'opened file name %s differs from %s' % (short(c2.filename), short(path))
+        if c1.filename != path:
+            problem = 'the connection made for this name has filename %s' % short(c1.filename[len(root):], 100)
+        elif marker(c1) != [('written-by-sqlite3',)]:
+            problem = 'the connection made for this name does not see the file the OS finds under it: %r' % (marker(c1),)
         else:
-            try:
-                rows = c2.queryAll('SELECT x FROM c18_probe')
-            except Exception as e:
-                problem = 'the table created through the original connection is not visible: %s' % exc(e)
-            if problem is None and [tuple(r) for r in rows] != [('through-the-original',)]:
-                problem = 'rows seen through the reopened URI: %r' % (rows,)
-            if problem is None and not os.path.samefile(c2.filename, path):
-                problem = 'os.path.samefile is False'
+            text, t = real_parse(uri)
+            if t is None or tuple(t[:5]) != (None, None, None, None, path) or t[5] != {}:
+                problem = 'the reported URI parses to %s' % text
+        if problem is None:
+            c1.query('CREATE TABLE c18_probe (x TEXT)')
+            c1.query("INSERT INTO c18_probe VALUES ('through-the-original')")
+            c2 = dbc.connectionForURI(uri)
+            again = dbc.connectionForURI(uri)
+            if again is not c2:
+                problem = 'connectionForURI returned two different connections for the same URI'
+            elif c2.filename != path:
+                problem = 'the connection opened from the reported URI has filename %s' % short(c2.filename[len(root):], 100)
+            elif marker(c2) != [('written-by-sqlite3',)]:
+                problem = 'the connection opened from the reported URI does not see the file: %r' % (marker(c2),)
+            else:
+                try:
+                    rows = [tuple(r) for r in c2.queryAll('SELECT x FROM c18_probe')]
+                except Exception as e:
+                    rows = exc(e)
+                if rows != [('through-the-original',)]:
+                    problem = 'rows written through the original connection, seen through the reopened URI: %r' % (rows,)
+                elif not os.path.samefile(c2.filename, path):
+                    problem = 'os.path.samefile is False'
         if problem:
-            ctx.oracle_fail('C18:sqlite:same-file:%s' % ascii(label), 'sqlite file %s, reported URI %s: %s'
-                            % (short(path, 100), short(uri, 100), problem), {'sqlite_file_label': label})
+            ctx.oracle_fail('C18:sqlite:same-file:%s' % ascii(rel), 'sqlite file <scratch>/%s, reported URI %s: %s'
+                            % (short(rel, 100), short(uri, 140), problem), case)
     except Exception as e:
-        ctx.oracle_fail('C18:sqlite:same-file-error:%s' % ascii(label), 'sqlite file %s (URI %s): %s: %s'
-                        % (short(path, 100), short(uri, 100), exc(e), e), {'sqlite_file_label': label})
+        ctx.oracle_fail('C18:sqlite:same-file-error:%s' % ascii(rel), 'sqlite file <scratch>/%s (URI %s): %s: %s'
+                        % (short(rel, 100), short(uri, 140), exc(e), e), case)
     finally:
         for c in (c1, c2):
             try:
@@ -539,8 +578,39 @@ def same_file_oracle(ctx, path, label):
                 pass
         if uri is not None:
             dbc.TheURIOpener.cachedURIs.pop(uri, None)
-    return uri
+    return path, uri
 
+
+def constructor_oracle(ctx, fn):
+    """an absolute file name given to the constructor / reached through connectionFromURI is the connection's file name"""
+    E = env()
+    cls = E['SQLiteConnection']
+    made = []
+    try:
+        c = cls(fn)
+        made.append(c)
+        if c.filename != fn:
+            ctx.oracle_fail('C18:sqlite:constructor:%s' % ascii(fn), 'SQLiteConnection(%s).filename is %s (its URI %s)'
+                            % (short(fn, 100), short(c.filename, 100), short(c.uri(), 100)), {'sqlite_constructor': fn})
+            return False
+        uri = c.uri()
+        c2 = cls.connectionFromURI(uri)
+        made.append(c2)
+        if c2.filename != fn:
+            ctx.oracle_fail('C18:sqlite:constructor-from-uri:%s' % ascii(fn), 'SQLiteConnection(%s) reports %s; connectionFromURI of that '
+                            'has filename %s' % (short(fn, 100), short(uri, 100), short(c2.filename, 100)), {'sqlite_constructor': fn})
+            return False
+        return True
+    except Exception as e:
+        ctx.oracle_fail('C18:sqlite:constructor-raises:%s:%s' % (exc(e), ascii(fn)), 'SQLiteConnection(%s): %s: %s' % (short(fn, 100), exc(e), e),
+                        {'sqlite_constructor': fn})
+        return False
+    finally:
+        for c in made:
+            try:
+                c.close()
+            except Exception:
+                pass
 
 
 # ---------------------------------------------------------------------------------------- extra parameters
@@ -1055,25 +1125,41 @@ def run(ctx):
                             {'sqlite_filename': fn})
         ctx.case(('s', fn), nontrivial=nontrivial_str(fn[1:]), sample={'case': desc, 'uri': short(uri, 120)}, kind=kind)
 
-    # ---- real files: the connection opened from the reported URI is the same database ---------
+    # ---- real files: the connection made for a name, and the one opened from its URI, address that file ----
     with Scratch() as sc:
+        scratch_layout(sc.dir)
         names = list(FILE_NAMES)
         for _ in range(ctx.budget(40, 1500)):
             nm = rstr(rng, 8).replace('/', '_').replace('\x00', '_')
             if nm and nm not in ('.', '..') and not has_surrogate(nm) and len(nm.encode('utf-8')) < 200:
                 names.append(nm)
-        seen = set()
-        for i, nm in enumerate(names):
-            if nm in seen:
-                continue
-            seen.add(nm)
-            sub = os.path.join(sc.dir, 'd%d' % (i % 7))
-            os.makedirs(sub, exist_ok=True)
-            path = os.path.join(sub, nm)
-            uri = same_file_oracle(ctx, path, nm)
-            ctx.case(('f', nm), nontrivial=True, kind='sqlite:real-file')
+        rels = []
+        for i, sp in enumerate(DIR_SPELLINGS):            # every spelling of a directory, with a plain and an awkward name
+            rels.append(sp + '/' + 'n%d.db' % i)
+            rels.append(sp + '/' + FILE_NAMES[(3 * i + 1) % len(FILE_NAMES)].replace(':memory:', 'm') + '.%d' % i)
+        for i, nm in enumerate(dict.fromkeys(names)):
+            rels.append(DIR_SPELLINGS[rng.randint(0, len(DIR_SPELLINGS) - 1) if rng.random() < 0.5 else 0] + '/' + nm + '.%d' % i)
+        for rel in rels:
+            path, uri = same_file_oracle(ctx, sc.dir, rel)
+            ctx.case(('f', rel), nontrivial=True, kind='sqlite:real-file' + (':non-normal-name' if os.path.normpath(path) != path else ''))
             if uri is not None:
-                add('sqlite uri(): model = SQLiteConnection.uri', {'file': short(nm)}, 'suri ' + enc(path), 'ok ' + enc(uri))
+                add('sqlite uri(): model = SQLiteConnection.uri', {'file': short(rel)}, 'suri ' + enc(path), 'ok ' + enc(uri))
+
+    # ---- the constructor keeps the file name (no file is touched) ----------------------------------
+    cfiles = ['/a/./b', '/a//b', '/a/../b', '/a/b/', '/a/.', '/a/..', '//a', '/./a', '/../a', '/a/b/../../c d%41?#', '/', '/.', '/..',
+              '/a/./', '/x/link/../y', '/\xe9/./\u4e2d//z', '/plain/name.db']
+    for _ in range(ctx.budget(150, 3000)):
+        fn = gen_filename(rng)
+        if fn.startswith('/') and fn != '/:memory:' and not has_surrogate(fn) and '\x00' not in fn:
+            if rng.random() < 0.6:
+                parts = fn.split('/')
+                parts.insert(rng.randint(1, len(parts)), rng.choice(['.', '..', '', '.', 'x/..', '. ', '...']))
+                fn = '/'.join(parts)
+            cfiles.append(fn)
+    for fn in cfiles:
+        ok = constructor_oracle(ctx, fn)
+        ctx.case(('c', fn), nontrivial=True, kind='sqlite:constructor' + (':non-normal-name' if os.path.normpath(fn) != fn else '')
+                 + ('' if ok else ':fail'))
 
     clear_opener()
 
@@ -1196,10 +1282,15 @@ def replay(case):
     if 'raw_uri' in case:
         text, t = real_parse(case['raw_uri'])
         return text == 'err ValueError', 'URI      : %r\n_parseURI: %s   (expected ValueError)' % (case['raw_uri'], text)
+    if 'sqlite_constructor' in case:
+        constructor_oracle(c, case['sqlite_constructor'])
+        return not c.fails, '\n'.join(w for _, w in c.fails) or 'SQLiteConnection(%r) keeps the name, also through its URI' % case['sqlite_constructor']
     if 'sqlite_file_label' in case:
         with Scratch() as sc:
-            uri = same_file_oracle(c, os.path.join(sc.dir, case['sqlite_file_label']), case['sqlite_file_label'])
-        return not c.fails, 'reported URI: %r\n%s' % (uri, '\n'.join(w for _, w in c.fails) or 'same file')
+            scratch_layout(sc.dir)
+            path, uri = same_file_oracle(c, sc.dir, case['sqlite_file_label'])
+        return not c.fails, 'file <scratch>/%s\nreported URI: %r\n%s' % (case['sqlite_file_label'], uri,
+                                                                         '\n'.join(w for _, w in c.fails) or 'same file')
     if 'string' in case:
         q = env()['dbconnection'].quote(case['string'], safe=case['safe'])
         b = env()['dbconnection'].unquote(q)
